@@ -191,6 +191,19 @@ pub fn run(args: &Args, prop: &str) {
         STATES.with(|s| s.borrow_mut().extend(crate::props::simrun::STATES.with(|x| x.borrow().clone())));
         bounds.push(json!({"family": "n<=4(5) with <=2 rejecting/conditional commands, all histories (heads and command set only)", "universes": dags.len(), "executions": ex}));
     }
+    if prop == "C01" {
+        // Replicas that hold the same commands converge even if one of them was offered commands its
+        // policy refuses on the way (at every position: on top of a tip, on an interior command, first
+        // of a fresh perspective or not): the committed heads, command set and facts must be those of
+        // the reference for the ACCEPTED command set, which is what a replica that never saw the
+        // refused commands shows.
+        let dags = crate::props::reject::universes(3, if args.tier == Tier::Thorough { 5 } else { 4 }, 2, true);
+        let cuts = [Cut::None, Cut::Batch, Cut::Commit];
+        let o = crate::sim::SimOracles { outcomes: false, state: true, effects: false, monotone: false };
+        let ex = crate::props::simrun::run_all(&mut rep, "rejecting", &dags, o, false, |c, _| matches!(c, "heads" | "cmdset" | "facts"), |d, f| crate::props::reject::histories(d, &cuts, f));
+        STATES.with(|s| s.borrow_mut().extend(crate::props::simrun::STATES.with(|x| x.borrow().clone())));
+        bounds.push(json!({"family": "n<=4(5) with <=2 refused/conditional commands on the way, all histories: committed state equals the reference of the accepted set", "universes": dags.len(), "executions": ex}));
+    }
     if prop == "C01" && flavour_s {
         // Convergence must also survive interleaved transactions and a local action on the busy
         // replica: whatever ends up committed must show the reference state of its command set.
